@@ -488,7 +488,8 @@ def check(prop, tier):
 # ---------------------------------------------------------------------------------------------
 # C15: files are replaced, never edited in place; hard-linked copies stay intact
 def twin_one(job):
-    sc, cfg, out, threads, loader, traced = job
+    sc, cfg, out, threads, loader, traced = job[:6]
+    inject = job[6] if len(job) > 6 else None
     base = ws.mkws('twin')
     w, twin = os.path.join(base, 'ws'), os.path.join(base, 'twin')
     os.makedirs(w)
@@ -510,7 +511,11 @@ def twin_one(job):
         twin_before = ws.snapshot(twin, skip=(), meta=True)
         probs = []
         args = scen.flags(cfg, threads, ('-q',) + (('--mmap',) if loader else ()))
-        if traced:
+        if inject:
+            # the k-th removal of a file is refused by the system: whatever the push then reports, it must not fall back to
+            # writing into the existing (shared) inode
+            rc, se, events = ws.strace_push(w, args, inject=inject)
+        elif traced:
             rc, se, events = ws.strace_push(w, args)
             # replay of the event trace into a model of the directory: which names exist
             exists = {p for p in before if not p.endswith('/')}
@@ -586,13 +591,24 @@ def check_c15(prop, tier):
                 continue
             o = sc['outs'][li % len(sc['outs'])]
             jobs.append((sc, o['cfg'], o['out'], 1 + li % 3, li % 2 == 1, li % 10 == 0))
+        # a sample again with the k-th unlink refused (EACCES / EPERM, as for an immutable or sticky directory)
+        nfault = 0
+        for li, line in enumerate(pick[:(300 if tier == 'quick' else 4000)]):
+            sc = json.loads(json.loads(line))
+            o = sc['outs'][0]
+            if o['out']['adversarial'] or o['out']['k'] == 0:
+                continue
+            for k in (1, 2):
+                jobs.append((sc, o['cfg'], o['out'], 1 + li % 2, False, False, 'unlink:error=%s:when=%d' % (('EACCES', 'EPERM')[li % 2], k)))
+                nfault += 1
         with Pool(12) as pool:
             outs = pool.map(twin_one, jobs, chunksize=8)
-        for (sc, cfg, o, threads, loader, traced), probs in zip(jobs, outs):
+        for job, probs in zip(jobs, outs):
+            sc, cfg, o, threads, loader, traced = job[:6]
             for cat, msg in probs:
-                res.violation(cat, msg + ' (threads %d%s)' % (threads, ', --mmap' if loader else ''),
-                              {'tree0': sc['tree0'], 'series': sc['series'], 'cfg': cfg, 'threads': threads, 'mmap': loader})
-        res.cov['parts']['twin-scenarios'].update({'runs': len(jobs), 'traced_with_strace': sum(1 for j in jobs if j[5]), 'with_mmap': sum(1 for j in jobs if j[4]),
+                res.violation(cat, msg + ' (threads %d%s%s)' % (threads, ', --mmap' if loader else '', (', injected ' + job[6]) if len(job) > 6 else ''),
+                              {'tree0': sc['tree0'], 'series': sc['series'], 'cfg': cfg, 'threads': threads, 'mmap': loader, 'inject': job[6] if len(job) > 6 else None})
+        res.cov['parts']['twin-scenarios'].update({'runs': len(jobs), 'runs_with_refused_unlink': nfault, 'traced_with_strace': sum(1 for j in jobs if j[5]), 'with_mmap': sum(1 for j in jobs if j[4]),
                                                    'failing_series': sum(1 for j in jobs if j[2]['exit'] == 1)})
         res.cov['traces_validated_against_impl'] += len(jobs)
         res.cov['evaluations'] += len(jobs)
